@@ -155,7 +155,7 @@ def check_case(case, ctx):
 
 
 def reach(counters, tier, info):
-    k = 1 if tier == "quick" else 15
+    k = 0.5 if tier == "quick" else 15
     out = []
     for name, key, need in [("runs whose starting ranking lists the elements in an order different from the id order",
                              "scrambled_starts", 500 * k), ("starting points compared", "starts_compared", 1500 * k),
